@@ -18,8 +18,8 @@ an independent WHATWG-style classifier (what a browser does: strip C0/space, dro
   unchanged); ``@addslash`` on a path not ending in ``/`` answers 301 with Location == path + ``/``
   (+ ``?query``); a static directory request without trailing slash redirects to path + ``/``;
 * ``@authenticated``: 302 whose Location is exactly the configured login_url when that carries a query,
-  else login_url + ``?next=`` + the percent-encoded original URI (relative login) / full URL (absolute
-  login), verified by decoding with urllib.
+  else login_url, optionally followed by ``?next=`` + one well-formed percent-encoded value (its content is
+  not part of the statement and only labelled).
 EITHER (labelled only): request targets that are not in origin-form (do not start with ``/``): HTTP gives
 them no path; only "well-formed response, no crash" is asserted.  Non-GET/HEAD methods: no redirect expected.
 
@@ -44,6 +44,13 @@ Sensitivity (scratch copies, quick tier, seed 1):
     slash, backslash, slash were left to sampling.  The grid enumerates every lead of length <= 5 over
     {'/', '\\', '%2f', '%5c'} (1364 leads) in front of evil.com through @removeslash/@addslash behind every pattern
     that can match and through both static mounts (the static tree has a directory for every lead): 4948 cases, ~3 s.
+Corrections:
+  * the check used to demand next == the exact request URI (relative login) / full URL (absolute login).  The
+    statement only says that @authenticated redirects "only to the configured login URL"; a tree that collapses the
+    leading "//" or "/\\" of the URI before putting it into next= (arguably safer) was reported as
+    C28.login_redirect_next.  Now: Location minus the appended next parameter must equal the login URL exactly
+    (with its own query when it has one), next must be a single well-formed percent-encoded parameter; its content is
+    only labelled (next_exact_uri / next_leading_slashes_collapsed / next_full_url / next_other).
 Not implemented from DESIGN: "redirect target == request path +- one slash" is asserted only for paths with a
 single leading slash (the repaired code deliberately collapses leading slashes; the statement only demands a
 same-host path there).  Raw non-ASCII bytes in the target are not generated (not valid in a request-target;
@@ -243,13 +250,33 @@ def evaluate(route, method, target):
             if loc != login:
                 return problem("C28.login_redirect_target")
             return labels, None
+        # The statement: "redirects only to the configured login URL".  Everything of Location except the
+        # ``next`` parameter Tornado may append must be exactly that URL; about the *content* of next the
+        # statement says nothing, so it only has to be one well-formed query parameter.
+        if loc == login:
+            labels.add("login_without_next")
+            return labels, None
         prefix = login + "?next="
-        if not loc.startswith(prefix) or "&" in loc[len(prefix):] or "#" in loc:
+        if not loc.startswith(prefix):
             return problem("C28.login_redirect_target")
-        nxt = urllib.parse.unquote_plus(loc[len(prefix):], encoding="utf-8", errors="strict")
-        want = target if route == "auth_rel" else "http://" + HOST + target
-        if nxt != want:
-            return problem("C28.login_redirect_next", {"next": nxt, "want": want})
+        value = loc[len(prefix):]
+        if not re.fullmatch(r"(?:[A-Za-z0-9_.~+*\-]|%[0-9A-Fa-f]{2})*", value):
+            return problem("C28.login_redirect_next_malformed", {"value": value})
+        try:
+            nxt = urllib.parse.unquote_plus(value, encoding="utf-8", errors="strict")
+        except UnicodeDecodeError:
+            nxt = None
+        # EITHER (labelled only): which form of the original URL next carries
+        collapsed = "/" + target.lstrip("/\\") if re.match(r"[/\\]", target) else target
+        full = "http://" + HOST + target
+        if nxt == target:
+            labels.add("next_exact_uri")
+        elif nxt == collapsed:
+            labels.add("next_leading_slashes_collapsed")
+        elif nxt == full:
+            labels.add("next_full_url")
+        else:
+            labels.add("next_other")
         return labels, None
 
     # ---- redirects derived from the request path
